@@ -2,6 +2,15 @@
 
 fn gen_size(ctx: &mut Ctx, remaining: usize) -> usize {
     let remaining = remaining.min(60_000);
+    // overflow-class requests: valid layouts that no allocator can satisfy / whose chunk size overflows
+    if ctx.rng.below(1000) < 8 {
+        return match ctx.rng.below(4) {
+            0 => (isize::MAX as usize) - 4096 - ctx.rng.below(64) as usize,
+            1 => 1usize << ctx.rng.range(44, 62),
+            2 => (isize::MAX as usize) / 2 + ctx.rng.below(4096) as usize,
+            _ => (1usize << 47) + ctx.rng.below(1 << 20) as usize,
+        };
+    }
     let r = ctx.rng.below(100);
     if r < ctx.prof.big_pct {
         // chunk-boundary and chunk-spanning sizes
@@ -439,6 +448,7 @@ fn op_typed(ctx: &mut Ctx, sc: &mut dyn ScopeOps) {
             let l = gen_layout(ctx, rem);
             let text = format!("alloc_layout {} {} 0 0 0", l.size(), l.align());
             ctx.count("alloc_layout");
+            let mode = if l.size() > 1 << 20 && mode == 2 { 0 } else { mode };
             match sc.x_alloc_layout(l, mode) {
                 Ok(ptr) => {
                     check_new_block(ctx, &text, ptr, l.size(), l);
@@ -475,6 +485,7 @@ fn op_typed(ctx: &mut Ctx, sc: &mut dyn ScopeOps) {
             let l = Layout::from_size_align(el.size() * n, el.align()).unwrap();
             let text = if dy { format!("alloc_layout {} {} 0 0 0", l.size(), l.align()) } else { format!("alloc_layout {} {} 1 0 1", l.size(), l.align()) };
             ctx.count("alloc_slice");
+            let mode = if l.size() > 1 << 20 && mode == 2 { 0 } else { mode };
             match sc.x_alloc_slice(e, n, mode) {
                 Ok(ptr) => {
                     check_new_block(ctx, &text, ptr, l.size(), l);
@@ -547,7 +558,7 @@ fn op_prepare(ctx: &mut Ctx, sc: &mut dyn ScopeOps) {
                 if lo % a != 0 || hi % a != 0 || hi - lo < s {
                     ctx.oracle("C01", format!("`{text}` returned range [{lo:#x},{hi:#x}) misaligned or too small"));
                 }
-                ctx.prepared = Some(Prep { lo, hi, esize: 1, ealign: a, typed: false, rev: false, elem: None, ptr: lo, cap: hi - lo, filled: 0, seed: 0, pos_snapshot: snap });
+                ctx.prepared = Some(Prep { lo, hi, esize: 1, ealign: a, typed: false, rev: false, elem: None, ptr: lo, cap: hi - lo, filled: 0, seed: 0, pos_snapshot: snap, dyn_: false });
                 log_op(ctx, sc, &text, &format!("ok 0 {lo} {}", hi - lo));
             }
             Err(()) => {
@@ -562,13 +573,14 @@ fn op_prepare(ctx: &mut Ctx, sc: &mut dyn ScopeOps) {
         let rev = ctx.rng.chance(1, 2);
         let text = format!("prepare_slice {} {} {cap} {}", el.size(), el.align(), rev as u8);
         ctx.count("prepare_slice");
-        match sc.x_prepare_slice(e, cap, rev) {
+        let dy = ctx.rng.chance(1, 3);
+        match sc.x_prepare_slice(e, cap, rev, dy) {
             Ok((ptr, got)) => {
                 if got < cap || ptr % el.align() != 0 {
                     ctx.oracle("C01", format!("`{text}` returned capacity {got} / pointer {ptr:#x}"));
                 }
                 let (lo, hi) = if rev { (ptr - got * el.size(), ptr) } else { (ptr, ptr + got * el.size()) };
-                ctx.prepared = Some(Prep { lo, hi, esize: el.size(), ealign: el.align(), typed: true, rev, elem: Some(e), ptr, cap: got, filled: 0, seed: 0, pos_snapshot: snap });
+                ctx.prepared = Some(Prep { lo, hi, esize: el.size(), ealign: el.align(), typed: true, rev, elem: Some(e), ptr, cap: got, filled: 0, seed: 0, pos_snapshot: snap, dyn_: dy });
                 log_op(ctx, sc, &text, &format!("ok {} {ptr} {got}", rev as u8));
             }
             Err(()) => {
@@ -627,7 +639,7 @@ fn step_prepared(ctx: &mut Ctx, sc: &mut dyn ScopeOps) {
             let want = p.cap + 1 + ctx.rng.below(200) as usize;
             let text = format!("prepare_slice {} {} {want} {}", p.esize, p.ealign, p.rev as u8);
             ctx.count("prepare_slice (regrow)");
-            match sc.x_prepare_slice(e, want, p.rev) {
+            match sc.x_prepare_slice(e, want, p.rev, p.dyn_) {
                 Ok((ptr, got)) => {
                     let (lo2, hi2) = if p.rev { (ptr - got * p.esize, ptr) } else { (ptr, ptr + got * p.esize) };
                     ctx.prepared = Some(Prep { lo: lo2, hi: hi2, ptr, cap: got, filled: 0, seed: 0, ..p });
@@ -648,7 +660,7 @@ fn step_prepared(ctx: &mut Ctx, sc: &mut dyn ScopeOps) {
             if p.typed {
                 let e = p.elem.unwrap();
                 ctx.count("commit_slice");
-                let (ptr, n) = sc.x_commit_slice(e, p.ptr, len, p.cap, p.rev);
+                let (ptr, n) = sc.x_commit_slice(e, p.ptr, len, p.cap, p.rev, p.dyn_);
                 let bytes = len * p.esize;
                 let shadow: Vec<u8> = (0..bytes).map(|k| pattern(p.seed, k)).collect();
                 if n != len {
